@@ -1,6 +1,7 @@
 (* A state invariant of the RunEngine model (Engine/RE.v), for all plans, devices and schedules:
    pc/state typing, blocking discipline, the paused checkpoint, stack alignment, ghost
-   bookkeeping of interruptions.  See the summary at the end of the file. *)
+   bookkeeping of interruptions.  See the summary at the end of the file; witnesses and the
+   axiom audit are in Proofs/RE_InvEx.v. *)
 From Coq Require Import List String ZArith Bool Arith Lia.
 From BV Require Import Engine.RE.
 Import ListNotations.
@@ -1485,6 +1486,12 @@ Proof.
   split; assumption.
 Qed.
 
+Theorem stacks_never_empty_reach s1 os1 :
+  ~ In (OBad 1) oN -> visited sN (s1, CAfterSleep, os1) ->
+  exists r rest top below, resps s1 = r :: rest /\ plans s1 = top :: below /\
+                           List.length rest = List.length below.
+Proof. intros Hno Hv. eapply stacks_never_empty; [exact escape_hook | apply reach_Inv, Hno | exact Hv]. Qed.
+
 (* replaces the second half of (I3): a reachable engine becomes paused only through the task,
    and is then paused, interrupted, blocking, resumable, waiting for the permit *)
 Theorem paused_only_by_task e s' o :
@@ -1522,3 +1529,30 @@ End Reach.
 
 End Inv.
 
+(* ================================================================== summary
+   Model: Engine/RE.v (frozen).  Everything below holds for every plan coalgebra
+   (P, presume, plan_of), every device oracle (D, dev), every initial configuration and every
+   schedule, with sN = fst (run (init ..) evs), oN = snd (run (init ..) evs).
+
+   reach_inv            Inv (escape ..) sN  \/  (oof sN /\ In (OBad 1) oN)
+                        (oof: the interpreter's fuel ran out; absorbing, always reported as OBad 1;
+                         RE_InvEx.out_of_fuel_reachable shows it can happen for plan coalgebras no
+                         generator implements.)  All corollaries assume ~ In (OBad 1) oN.
+   Inv G s              I1 pc_state_ok (pc s) (state s)
+                        I2 blocking -> pc in {PcNone, PcPaused, PcDone}
+                        I3 pc = PcPaused -> must_cancel = false /\ resumable /\ (blocking -> permit = false)
+                        I4 stack_a: aligned (equal length, non-empty) at PcNotStarted/PcPermit0/PcSleep0/
+                           PcPaused; one response short at PcCmd
+                        .. pc in {PcSleep0, PcCmd} -> permit;  pc = PcCmd -> stashed = None
+                        .. state = Idle -> bundlers = [];  state = Pausing -> interrupted
+                        I6 interrupted -> icause <> None;  G \/ R6 s
+   step_inv / run_inv   Inv is preserved by every event / schedule (G collects the two escapes of R6)
+   dstep_inv, tentry_inv, visited_DInv
+                        every configuration of the straight-line interpreter satisfies DInv
+   T1 quiescent_state, blocking_pc          T2 paused_is_resumable, paused_pc_checkpoint
+   T3 done_is_idle, idle_no_open_runs       T4 stacks_aligned, assertion_never_fails,
+                                               stacks_never_empty(_reach), cbody_no_assert_exit
+   I1 pc_state_typing, cleanup_never_stranded, cleanup_never_refused
+   T5 interrupted_has_cause, interrupted_idle_cause(_full)
+   I3' paused_only_by_task / enter_paused   (the transition form of "paused means interrupted")
+   Table facts used: the lemmas allowed_* at the top of the file, nothing else. *)
